@@ -4,6 +4,7 @@ import (
 	"github.com/goghcrow/yae/parser/ast"
 	"github.com/goghcrow/yae/parser/lexer"
 	"github.com/goghcrow/yae/util"
+	"github.com/goghcrow/yae/verifhook"
 )
 
 func Infer(expr ast.Expr, env *Env) (ty *Type, err error) {
@@ -12,6 +13,7 @@ func Infer(expr ast.Expr, env *Env) (ty *Type, err error) {
 }
 
 func Check(expr ast.Expr, env *Env) *Type {
+	verifhook.Step("types.Check")
 	switch e := expr.(type) {
 	case *ast.StrExpr:
 		return Str
